@@ -176,16 +176,13 @@ theorem adjust_ignores_future (w : List Bar) (f1 f2 : List (Nat × R)) (t : Adju
       exact key orig (Nat.le_refl _) ⟨r, hr, Nat.le_trans hrd (hw first hfm)⟩
     have hm : ∀ b ∈ first :: rest, factorForDate f1 b.dt = factorForDate f2 b.dt :=
       fun b hb => key b.dt (hw b hb) (hfirst b hb)
-    have hl : ((first :: rest).getLast?).bind (fun l => factorForDate f1 l.dt)
-        = ((first :: rest).getLast?).bind (fun l => factorForDate f2 l.dt) := by
-      cases hg : (first :: rest).getLast? with
-      | none => rfl
-      | some l => simp only [Option.bind_some]; exact hm l (List.mem_of_getLast? hg)
+    have hfl : (first :: rest).mapM (fun b => factorForDate f1 b.dt) = (first :: rest).mapM (fun b => factorForDate f2 b.dt) := by
+      apply mapM_congr_mem; intro b hb; exact hm b hb
     have hmap : ∀ base : R, (first :: rest).mapM (fun b => (factorForDate f1 b.dt).map (fun f => scaleBar b (f / base)))
         = (first :: rest).mapM (fun b => (factorForDate f2 b.dt).map (fun f => scaleBar b (f / base))) := by
       intro base; apply mapM_congr_mem; intro b hb; rw [hm b hb]
     simp only [adjustBars]
-    rw [ho, hm first hfm, hl]
+    rw [ho, hfl]
     simp only [hmap]
 
 /-- the tail of `historyBars` after the source table has been chosen -/
